@@ -114,7 +114,10 @@ def drive(ctx: Ctx, strategy, body: Callable[[Any], None], total: int, chunk: in
 
 	done = 0
 	k = 0
-	while done < total and not ctx.out_of_time():
+	# the time budget is a safety net, not a verdict: on a loaded machine every shard still completes a floor of cases
+	floor = int(ctx.budget.get('min_cases', max(1, total // 6)))
+	cases_run = [0]
+	while done < total and not (ctx.out_of_time() and cases_run[0] >= floor):
 		n = min(chunk, total - done)
 		st = settings(max_examples=n, database=None, deadline=None, derandomize=False, report_multiple_bugs=False,
 			suppress_health_check=list(HealthCheck), phases=[Phase.generate], print_blob=False)
@@ -126,8 +129,9 @@ def drive(ctx: Ctx, strategy, body: Callable[[Any], None], total: int, chunk: in
 		@st
 		@given(strategy)
 		def test(x):
-			if ctx.out_of_time():
+			if ctx.out_of_time() and cases_run[0] >= floor:
 				raise _Stop()
+			cases_run[0] += 1
 			body(x)
 
 		try:
@@ -365,7 +369,7 @@ def write_evidence(mod, tier: str, seed: int, merged: dict, wall: float, violati
 		'distinct_nontrivial': len(merged['nontrivial']),
 		'rule': mod.RULE,
 		'samples': merged['samples'] or ['<no non-trivial sample recorded>'],
-		'labels': dict(sorted(merged['labels'].items(), key=lambda kv: (-kv[1], kv[0]))[:60]),
+		'labels': dict(sorted(merged['labels'].items(), key=lambda kv: (-kv[1], kv[0]))[:200]),
 		'discarded_out_of_domain': dict(merged['discards']),
 		'inconclusive_timeouts': merged['timeouts'],
 		'failure_buckets': {sig: {'count': f['count'], 'detail': f['detail'][:300]} for sig, f in merged['failures'].items()},
